@@ -4,6 +4,7 @@ from __future__ import annotations
 import json
 import os
 
+from ..codecs import EVALUATED_CODECS
 from ..compare import compare_class, parse_bindings, compose_root, collect_fields
 from ..model import ClassInfo
 from ..values import ClassV, DictV, ObjV, SelfV, Sym, show
@@ -97,6 +98,19 @@ def check(ctx, report):
         if kind == 'mixed':
             # a binary frame around a text body (uint32 length + name-list): text bindings for the body, layout comparison for the frame
             text_bindings(ctx, c, report)
+        if kind in ('binary', 'mixed') and c.name in EVALUATED_CODECS:
+            # a codec whose two loops are decided against the wire format by evaluation (sa/codecs.py): the layout comparison
+            # with its reviewed difference applies only when the functions cannot be evaluated
+            ev = EVALUATED_CODECS[c.name](ctx)
+            if ev['evaluated']:
+                report.count('C01.R1', ev['runs'])
+                for side, text in sorted(ev['problems'].items()):
+                    report.add('C01.R1', '%s@codec[%s]' % (cons, side), text)
+                if not ev['problems']:
+                    report.sample({'rule': 'C01.R1', 'class': c.name, 'verdict': 'codec evaluated against the wire format', 'runs': ev['runs']}, 40)
+                seen_reviewed.add(c.name)
+                continue
+            report.undecided.append('%s: codec not evaluable (%s): layout comparison with its reviewed difference' % (c.name, ev['why']))
         if kind in ('binary', 'mixed'):
             hdr = reviewed.get(c.name, {}).get('strip_header')
             cmpn = compare_class(c, ctx.canon, strip_header=tuple(hdr) if hdr else None)
